@@ -16,9 +16,11 @@ from harness.refs import byteranges, ranges as rref
 
 LEVEL = "exploration"
 RULES = {
+    "ifrange": "enumerated: every If-Range form (absent, ETag exact/unquoted/weak, Last-Modified exact, +-1 s, +1 day, far future, other date, garbage, empty) x "
+    "six Range shapes x two sizes on all three interfaces and both methods",
     "files": "Hypothesis: file size in {0, 1, c-1, c, c+1, 2c, 2c+1, random <= 5c, sizes around powers of ten} for chunk size c in "
     "{1,2,3,7,64,262144} x Range (absent, grammar-built sets of 1..5 specs biased to file end / chunk multiples / 10^k, overlapping, "
-    "unordered, malformed text, empty) x If-Range (absent, exact ETag, unquoted, weak, exact Last-Modified, other date, garbage, empty) "
+    "unordered, malformed text, empty) x If-Range (absent, exact ETag, unquoted, weak, exact Last-Modified, Last-Modified +-1 s / +1 day, far future, other date, garbage, empty) "
     "x GET and HEAD x {WSGI, ASGI, ASGI+zero-copy} x content type given/guessed x download name; every case is answered on all three "
     "interfaces and both methods and the six answers are parsed and compared; non-trivial = satisfiable Range with an edge or the "
     "size within +-1 of a chunk multiple, or a multipart answer",
@@ -60,6 +62,13 @@ def file_for(size: int, ext: str) -> str:
             fh.write(pattern(size))
         _FILES[key] = path
     return _FILES[key]
+
+
+def _shift(http_date, seconds):
+    import datetime
+    from email.utils import format_datetime, parsedate_to_datetime
+
+    return format_datetime(parsedate_to_datetime(http_date) + datetime.timedelta(seconds=seconds), usegmt=True)
 
 
 def request(case, method, iface, if_range_value):
@@ -213,6 +222,11 @@ def oracle(case) -> Result:
         "weak": "W/" + etag,
         "lastmod": lastmod,
         "otherdate": "Thu, 01 Jan 2015 00:00:00 GMT",
+        # dates around the file's own Last-Modified: only the exact value is a matching validator
+        "lastmod+1s": _shift(lastmod, 1),
+        "lastmod-1s": _shift(lastmod, -1),
+        "lastmod+1d": _shift(lastmod, 86400),
+        "far-future": "Fri, 31 Dec 2100 23:59:59 GMT",
         "garbage": "xyz",
         "empty": "",
     }[kind]
@@ -274,7 +288,7 @@ def oracle(case) -> Result:
     return r
 
 
-SUBS = {"files": oracle, "grid": oracle}
+SUBS = {"files": oracle, "grid": oracle, "ifrange": oracle}
 
 # ------------------------------------------------------------------------------------------
 
@@ -316,7 +330,7 @@ def file_case(draw):
         "size": size,
         "chunk": c,
         "range": rng,
-        "if_range": draw(st.sampled_from(["absent", "absent", "absent", "etag", "etag", "lastmod", "unquoted", "weak", "otherdate", "garbage", "empty"])),
+        "if_range": draw(st.sampled_from(["absent", "absent", "absent", "etag", "etag", "lastmod", "unquoted", "weak", "otherdate", "garbage", "empty", "lastmod+1s", "lastmod-1s", "lastmod+1d", "far-future"])),
         "ext": draw(st.sampled_from([".bin", ".txt"])),
         "ctype": draw(st.sampled_from([None, None, "image/png", "text/plain; charset=utf-8"])),
         "dname": draw(st.sampled_from([None, None, "report.pdf", "data.bin"])),
@@ -352,5 +366,18 @@ def run(rec, only=None):
     else:
         core.run_sharded(rec, grid_shard, 64, core.ncpu(), (2, 1))
     rec.exhaustive["grid"] = not quick  # quick: all 1-spec sets, every 61st 2-spec set
+    kinds = ["absent", "etag", "lastmod", "unquoted", "weak", "otherdate", "garbage", "empty", "lastmod+1s", "lastmod-1s", "lastmod+1d", "far-future"]
+    core.drive_cases(
+        rec,
+        "ifrange",
+        (
+            {"size": size, "chunk": 2, "range": rng, "if_range": kind, "ext": ".bin", "ctype": None, "dname": None}
+            for kind in kinds
+            for size in (5, 64)
+            for rng in ("bytes=0-1", "bytes=1-", "bytes=-2", "bytes=0-0,2-3", "bytes=9-", "junk")
+        ),
+        oracle,
+    )
+    rec.exhaustive["ifrange"] = True
     core.drive_hypothesis(rec, "files", file_case(), oracle, 500 if quick else 12000)
     rec.exhaustive["files"] = False
